@@ -237,7 +237,17 @@ func (x *hrun) stub(_ context.Context, req *stack.StubRequest) *stack.StubReply 
 		pc.Lease = now.Sub(x.start) + x.sumD + d
 	}
 	if req.OPT != nil {
-		m.Extra = append(m.Extra, dns.Copy(req.OPT))
+		// echo the OPT like the resolver does, minus the client-subnet option
+		// (the stack library answers that one itself, with the scope)
+		opt := dns.Copy(req.OPT).(*dns.OPT)
+		kept := opt.Option[:0]
+		for _, o := range opt.Option {
+			if _, isECS := o.(*dns.EDNS0_SUBNET); !isECS {
+				kept = append(kept, o)
+			}
+		}
+		opt.Option = kept
+		m.Extra = append(m.Extra, opt)
 	}
 	x.pieces[g] = pc
 	x.opPieces = append(x.opPieces, pc)
